@@ -41,14 +41,21 @@ SqrtMax(T) == Z(FALSE, MSqrt(IF T.bits = 0 THEN MPow2(200) ELSE T.max.m))
 Limits(T) == (IF HasMax(T) THEN {T.max, ZSub(T.max, ZOne)} ELSE {})
              \cup (IF HasMin(T) THEN {T.min, ZAdd(T.min, ZOne)} ELSE {})
 
+\* fixed-point types (values are integers scaled by F = 10^scale): 1.0, its neighbours, 0.1, 10.0,
+\* the largest whole number
+FixSmall(T) ==
+  IF T.scale = 0 THEN {}
+  ELSE Around(T.factor) \cup {ZPow10(T.scale - 1), ZMulSmall(T.factor, 10), ZMulSmall(T.factor, 2),
+                              ZSub(T.factor, ZPow10(T.scale - 1))}
+
 Boundary(T) ==
-  Keep(T, PM(Small)
+  Keep(T, PM(Small) \cup PM(FixSmall(T))
           \cup PM(UNION {Around(ZPow2(k)) : k \in Ks(T)})
           \cup Limits(T)
           \cup PM(Around(SqrtMax(T))))
 
 Core(T) ==
-  Keep(T, PM({ZFromInt(v) : v \in {0, 1, 2, 3, 10, 255}})
+  Keep(T, PM({ZFromInt(v) : v \in {0, 1, 2, 3, 10, 255}}) \cup PM(FixSmall(T))
           \cup Limits(T)
           \cup PM(Around(SqrtMax(T)))
           \cup PM(UNION {Around(ZPow2(k)) : k \in {7, 8, 15, 16, 31, 32, 63, 64, TopExp(T) - 1, TopExp(T)}}))
@@ -76,7 +83,19 @@ DivPairs(T) ==
   \cup (IF HasMax(T) THEN {<<T.max, ZMinusOne>>, <<T.max, T.max>>, <<T.max, ZSub(T.max, ZOne)>>, <<ZSub(T.max, ZOne), T.max>>}
         \cup (IF HasMin(T) THEN {<<T.max, T.min>>, <<T.min, T.max>>} ELSE {}) ELSE {})
 
-Pairs(T) == {p \in ProductPairs(T) \cup SumPairs(T) \cup SquarePairs(T) \cup DivPairs(T) :
+\* fixed point: products a*b/F around max, i.e. a*b around max*F: a = 2^i (+-1), b = floor(max*F / 2^i) (+-1)
+\* (a power-of-two quotient is a limb shift, see Bignum!MShr); quotients a*F/b around max: b just below 1.0
+FixPairs(T) ==
+  IF T.scale = 0 THEN {}
+  ELSE LET lim == ZMul(T.max, T.factor)
+           s   == Z(FALSE, MSqrt(lim.m))
+       IN UNION {UNION {SignPairs(T, x, y) : x \in Around(ZPow2(i)), y \in Around(ZFloorShr(lim, i))} :
+                   i \in {j \in 1..(T.bits - 2) : Dense \/ j % 4 = 0}}
+          \cup UNION {SignPairs(T, x, y) : x \in Around(s), y \in Around(s)}
+          \cup UNION {SignPairs(T, x, y) : x \in {T.max, ZSub(T.max, ZOne), ZFloorShr(T.max, 1), ZAdd(ZFloorShr(T.max, 1), ZOne)},
+                                           y \in Around(T.factor) \cup Around(ZMulSmall(T.factor, 2)) \cup {ZOne, ZFromInt(2), ZFromInt(3)}}
+
+Pairs(T) == {p \in ProductPairs(T) \cup SumPairs(T) \cup SquarePairs(T) \cup DivPairs(T) \cup FixPairs(T) :
                InRange(T, p[1]) /\ InRange(T, p[2])}
 
 \* shift amounts; for the unbounded types amounts in (MaxExactShift, 2^64) are excluded (see Bits)
